@@ -147,12 +147,13 @@ func c17Types() []c17Type {
 					return v, nil
 				}
 				if r.Chance(1, 6) { // times whose year does not fit the stored 32-bit year: whatever Scan decides, an error must leave the receiver alone
-					return nil, time.Date([]int{1<<31 + 2021, 5000000000, -(1 << 31) - 7, 1<<31 - 1, 1 << 32, 292277026596}[r.Intn(6)], time.Month(m), d, 0, 0, 0, 0, time.UTC)
+					return nil, time.Date(int([]int64{1<<31 + 2021, 5000000000, -(1 << 31) - 7, 1<<31 - 1, 1 << 32, 292277026596}[r.Intn(6)]), time.Month(m), d, 0, 0, 0, 0, time.UTC)
 				}
 				if wantValid {
 					return nil, time.Date(int(y), time.Month(m), d, r.Intn(24), r.Intn(60), 0, 0, time.UTC)
 				}
-				return nil, []any{nil, "2021-01-01", []byte("2021-01-01"), 42, 1.5, true, struct{}{}, &time.Time{}}[r.Intn(8)]
+				t := ref.DateText(y, m, d, false)
+				return nil, []any{nil, "2021-01-01", []byte("2021-01-01"), 42, 1.5, true, struct{}{}, &time.Time{}, t, []byte(t), t + " 25:61:00", t + "T12:00", t + " ", []byte(t + " 12:00:00x"), t + "x", []byte(t + "\x00"), int64(y), float64(d)}[r.Intn(18)]
 			},
 		},
 		{
